@@ -1,0 +1,15 @@
+//go:build verif
+
+package uci
+
+import . "github.com/paulsonkoly/chess-3/chess"
+
+// This file is only compiled with the `verif` build tag. It exposes the time
+// control computation to external verification harnesses.
+
+// VerifTimeLimits returns whether the clock state results in a timed search
+// and the soft and hard time limits in milliseconds for stm.
+func VerifTimeLimits(wtime, btime, winc, binc, mtime int64, stm Color) (timed bool, soft, hard int64) {
+	tc := timeControl{wtime: wtime, btime: btime, winc: winc, binc: binc, mtime: mtime}
+	return tc.timedMode(stm), tc.softLimit(stm), tc.hardLimit(stm)
+}
